@@ -14,3 +14,13 @@ func verifPollHook(scheduledTime time.Time) {
 		hook(scheduledTime)
 	}
 }
+
+// VerifAddHook, if set, is called by Queue.Add between the shutdown check and the insertion of the element. It
+// receives the scheduled time of the element.
+var VerifAddHook func(scheduledTime time.Time)
+
+func verifAddHook(scheduledTime time.Time) {
+	if hook := VerifAddHook; hook != nil {
+		hook(scheduledTime)
+	}
+}
